@@ -221,6 +221,7 @@ func main() {
 				s.limit(L, stompBroker)
 			}
 			s.nats(natsBroker)
+			s.direct(natsBroker, limits)
 			run.Add("measurement_sends", m.sends)
 		}(proto)
 	}
